@@ -51,7 +51,13 @@ RULE = (
     "scalars'); distinct = distinct (entry point, pattern, argument-shape signature); round 3 adds the patterns "
     "{every integer sequence as a plain list, as a write-protected int64 array, as a writable int32 array - all at once "
     "and one at a time} and, in the thorough tier, a parameter-level audit (which parameter of which public callable "
-    "received an object owned by the caller under which pattern)"
+    "received an object owned by the caller under which pattern); round 4 adds {views into larger caller buffers with the "
+    "base snapshotted, float32 / negative-stride / Fortran-ordered arguments, the same argument objects for three "
+    "successive calls with every answer compared with the one on pristine arguments, one argument made unacceptable so "
+    "that the call raises part-way, callbacks returning float32 / complex / longdouble / int / changing kinds} and "
+    "two-step histories for every class (object built twice from the caller's arrays, infinite-radius local grid, every "
+    "setter twice, the mutating methods in between); in the quick tier the patterns other than rw / ro / cb-identity / "
+    "cb-cached run on every other entry, alternating with the seed (all of them in the thorough tier)"
 )
 TRUSTED_BASE = [
     "Lean 4.33 kernel; axioms propext, Classical.choice, Quot.sound only (audited per theorem)",
@@ -75,33 +81,76 @@ def _flagged():
     return [(p["name"], fx.offenders(p)) for p in progs if fx.offenders(p)], len(progs)
 
 
+class _Parts:
+    """Independent parts of `corr` / `oracle`: an exception inside one part (a translator that raises
+    on a changed tree, a self-test, the audit) is recorded and kept, the other parts still run — above
+    all the registry, which needs the implementation only; the first exception is re-raised at the end."""
+
+    def __init__(self, ctx: Ctx):
+        self.ctx = ctx
+        self.first = None
+        self.errors = {}
+
+    def run(self, name, fn, default=None):
+        try:
+            return fn()
+        except KeyboardInterrupt:
+            raise
+        except BaseException as e:  # noqa: BLE001
+            self.errors[name] = f"{type(e).__name__}: {str(e)[:300]}"
+            self.ctx.info(f"C20 part `{name}` raised {type(e).__name__}: {str(e)[:200]} (the other parts still run)")
+            if self.first is None:
+                self.first = e
+            return default
+
+    def finish(self):
+        if self.errors:
+            self.ctx.extra["parts_raised"] = dict(self.errors)
+        if self.first is not None:
+            raise self.first
+
+
 def corr(ctx: Ctx):
     """Dynamic validation of the IR: an observed change of caller-owned data is at the same time a
-    concrete violation of the property, so it is recorded as an `oracle` failure (with replay)."""
+    concrete violation of the property, so it is recorded as an `oracle` failure (with replay).
+    Parts: translator self-tests | IR of the tree (only used to order the registry) | registry."""
     from . import c20_registry as reg
 
-    # the translator's decisions on default-valued parameters of nested functions, one synthetic
-    # function per clause of the condition (harness/translate/effects.py: PINNED_SELFTEST)
-    for k, msg in enumerate(fx.pinned_selftest()):
-        ctx.fail("corr", f"effects.pinned_defaults.selftest.{k}", msg)
-    ctx.extra["pinned_selftest_cases"] = len(fx.PINNED_SELFTEST)
-    # the analysis' verdict on one synthetic function per external call / calling convention that can
-    # write into an argument (overwrite_* / inplace / copy=False keywords, out operands, np.put*, sort, …)
-    for k, msg in enumerate(fx.effects_selftest()):
-        ctx.fail("corr", f"effects.selftest.{k}", msg)
-    ctx.extra["effects_selftest_cases"] = len(fx.EFFECTS_SELFTEST)
-    flagged, nprogs = _flagged()
-    ctx.extra["ir_functions"] = nprogs
-    ctx.extra["ir_flagged"] = [f"{n}: {o[:3]}" for n, o in flagged]
-    reg.run(ctx, budget="thorough" if ctx.thorough else "quick", flagged={n for n, _ in flagged})
+    parts = _Parts(ctx)
+
+    def selftests():
+        # the translator's decisions on default-valued parameters of nested functions, one synthetic
+        # function per clause of the condition (harness/translate/effects.py: PINNED_SELFTEST)
+        for k, msg in enumerate(fx.pinned_selftest()):
+            ctx.fail("corr", f"effects.pinned_defaults.selftest.{k}", msg)
+        ctx.extra["pinned_selftest_cases"] = len(fx.PINNED_SELFTEST)
+        # the analysis' verdict on one synthetic function per external call / calling convention that can
+        # write into an argument (overwrite_* / inplace / copy=False keywords, out operands, np.put*, sort, …)
+        for k, msg in enumerate(fx.effects_selftest()):
+            ctx.fail("corr", f"effects.selftest.{k}", msg)
+        ctx.extra["effects_selftest_cases"] = len(fx.EFFECTS_SELFTEST)
+
+    def ir():
+        flagged, nprogs = _flagged()
+        ctx.extra["ir_functions"] = nprogs
+        ctx.extra["ir_flagged"] = [f"{n}: {o[:3]}" for n, o in flagged]
+        return {n for n, _ in flagged}
+
+    parts.run("translator-selftests", selftests)
+    flagged = parts.run("effects-ir", ir, default=set())
+    parts.run("registry", lambda: reg.run(ctx, budget="thorough" if ctx.thorough else "quick", flagged=flagged))
+    parts.finish()
 
 
 def oracle(ctx: Ctx, budget: str):
     """Failing-input search when a proof obligation broke: run the registry with the large budget,
-    the entry points that reach a flagged function first."""
+    the entry points that reach a flagged function first (the IR is only used for the order: if the
+    translator raises on the changed tree the registry runs in its plain order)."""
     if budget != "large":
         return
     from . import c20_registry as reg
 
-    flagged, _ = _flagged()
-    reg.run(ctx, budget="large", flagged={n for n, _ in flagged})
+    parts = _Parts(ctx)
+    flagged = parts.run("effects-ir", lambda: {n for n, _ in _flagged()[0]}, default=set())
+    parts.run("registry", lambda: reg.run(ctx, budget="large", flagged=flagged))
+    parts.finish()
